@@ -20,6 +20,8 @@
 //	c11.host_module_id      wasm/host.go NewHostModule                        the expression the host module's ID is derived from
 //	c05.fcmp_branch_order   amd64/machine.go LowerConditionalBranch            order of the m.insert calls of the two-jump form; the jumps of its `and` and `or` variants
 //	c05.fcmp_eq_ne_flags    amd64/machine.go lowerFcmpToFlags                  the flag pairs of FloatCmpCondEqual / NotEqual
+//	c17.ro_dir_mount        fsconfig.go WithReadOnlyDirMount                  the statements of the function
+//	c03.drop_range_units    interpreter/compiler.go getFrameDropRange         the three quantities the drop range is computed from
 //	c09.compiled_fields     wazevo/engine.go compiledModule, interpreter compiledFunction   field names of what is shared by all instances
 package main
 
@@ -317,6 +319,27 @@ func main() {
 			die("lowerFcmpToFlags: %d of the two equality cases found", len(rows))
 		}
 		add("c05.fcmp_eq_ne_flags", strings.Join(rows, " || "))
+	}
+	{
+		fd := fn(*repo, "fsconfig.go", "WithReadOnlyDirMount", "fsConfig")
+		var ss []string
+		for _, st := range fd.Body.List {
+			ss = append(ss, src(st))
+		}
+		add("c17.ro_dir_mount", strings.Join(ss, " ;; "))
+	}
+	{
+		// the interpreter's value stack is a stack of 64-bit SLOTS (a v128 takes two): everything the drop range is
+		// computed from has to be counted in slots
+		fd := fn(*repo, "internal/engine/interpreter/compiler.go", "getFrameDropRange", "compiler")
+		var rhs []string
+		ast.Inspect(fd.Body, func(n ast.Node) bool {
+			if as, ok := n.(*ast.AssignStmt); ok && len(as.Lhs) == 1 && len(as.Rhs) == 1 && (src(as.Lhs[0]) == "start" || src(as.Lhs[0]) == "end") {
+				rhs = append(rhs, src(as.Lhs[0])+" = "+src(as.Rhs[0]))
+			}
+			return true
+		})
+		add("c03.drop_range_units", strings.Join(rhs, " ;; "))
 	}
 	add("c09.compiled_fields", "wazevo.compiledModule: "+structFields(*repo, "internal/engine/wazevo/engine.go", "compiledModule")+
 		" ;; interpreter.compiledFunction: "+structFields(*repo, "internal/engine/interpreter/interpreter.go", "compiledFunction"))
